@@ -419,6 +419,12 @@ class StmtMixin:
                 return [('ok', st, IterState('list', ref=v, idx=z3.IntVal(0)))]
             if v.t == 'kwdict':
                 return [('ok', st, IterState('static', items=[sv_str(k) for k in self.local(st, v).items], idx=0))]
+            if v.t == 'dict':
+                res = []
+                for kind0, s0, view in self._dict_view(st, v, 'keys'):
+                    for kind, s2, r in self.prim(s0, 'iter', [view]):
+                        res.append((kind, s2, IterState('opaque', it=sv_ref(r.v, 'iter')) if kind == 'ok' else r))
+                return res
             if v.t == 'iter':
                 return [('ok', st, IterState('opaque', it=v))]
             if v.t in (None, 'simple'):
